@@ -26,6 +26,7 @@ type treeAPI struct {
 	pkg   string
 	dim   int
 	build func(ps []pt) *treeInst
+	hand  func(rng *rand.Rand, ps []pt) *treeInst
 }
 
 type treeInst struct {
@@ -40,6 +41,8 @@ type treeInst struct {
 	sqDist   func(a, b pt) float64 // the library's own point-to-point routine
 	ptDist   func(a, b pt) float64
 	single   func(q pt) *treeInst // one-point tree: the "per-object routine"
+	// the two children reached through the exported fields (nil for an absent child)
+	children func() []*treeInst
 }
 
 func to3(p pt) C3   { return model3d.XYZ(p.X, p.Y, p.Z) }
@@ -52,8 +55,21 @@ func build3(ps []pt) *treeInst {
 	for i, p := range ps {
 		cs[i] = to3(p)
 	}
-	t := model3d.NewCoordTree(cs)
+	return wrap3(model3d.NewCoordTree(cs))
+}
+
+func wrap3(t *model3d.CoordTree) *treeInst {
 	return &treeInst{
+		children: func() []*treeInst {
+			var res []*treeInst
+			if t != nil && t.LessThan != nil {
+				res = append(res, wrap3(t.LessThan))
+			}
+			if t != nil && t.GreaterEqual != nil {
+				res = append(res, wrap3(t.GreaterEqual))
+			}
+			return res
+		},
 		empty:    t.Empty(),
 		leaf:     t.Leaf(),
 		contains: func(p pt) bool { return t.Contains(to3(p)) },
@@ -87,8 +103,21 @@ func build2(ps []pt) *treeInst {
 	for i, p := range ps {
 		cs[i] = to2(p)
 	}
-	t := model2d.NewCoordTree(cs)
+	return wrap2(model2d.NewCoordTree(cs))
+}
+
+func wrap2(t *model2d.CoordTree) *treeInst {
 	return &treeInst{
+		children: func() []*treeInst {
+			var res []*treeInst
+			if t != nil && t.LessThan != nil {
+				res = append(res, wrap2(t.LessThan))
+			}
+			if t != nil && t.GreaterEqual != nil {
+				res = append(res, wrap2(t.GreaterEqual))
+			}
+			return res
+		},
 		empty:    t.Empty(),
 		leaf:     t.Leaf(),
 		contains: func(p pt) bool { return t.Contains(to2(p)) },
@@ -117,8 +146,53 @@ func build2(ps []pt) *treeInst {
 	}
 }
 
-var tree3API = treeAPI{"model3d", 3, build3}
-var tree2API = treeAPI{"model2d", 2, build2}
+// hand3 / hand2 assemble a tree through the exported fields with a seeded split axis and pivot at
+// every node (what the fields document: LessThan holds the points below the node's coordinate on
+// SplitAxis, GreaterEqual the others); the axes do not follow the depth.
+func hand3(rng *rand.Rand, ps []pt) *model3d.CoordTree {
+	if len(ps) == 0 {
+		return nil
+	}
+	ax := rng.Intn(3)
+	k := rng.Intn(len(ps))
+	piv := to3(ps[k])
+	var lo, hi []pt
+	for i, p := range ps {
+		if i == k {
+			continue
+		}
+		if to3(p).Array()[ax] < piv.Array()[ax] {
+			lo = append(lo, p)
+		} else {
+			hi = append(hi, p)
+		}
+	}
+	return &model3d.CoordTree{Coord: piv, SplitAxis: ax, LessThan: hand3(rng, lo), GreaterEqual: hand3(rng, hi)}
+}
+
+func hand2(rng *rand.Rand, ps []pt) *model2d.CoordTree {
+	if len(ps) == 0 {
+		return nil
+	}
+	ax := rng.Intn(2)
+	k := rng.Intn(len(ps))
+	piv := to2(ps[k])
+	var lo, hi []pt
+	for i, p := range ps {
+		if i == k {
+			continue
+		}
+		if to2(p).Array()[ax] < piv.Array()[ax] {
+			lo = append(lo, p)
+		} else {
+			hi = append(hi, p)
+		}
+	}
+	return &model2d.CoordTree{Coord: piv, SplitAxis: ax, LessThan: hand2(rng, lo), GreaterEqual: hand2(rng, hi)}
+}
+
+var tree3API = treeAPI{"model3d", 3, build3, func(rng *rand.Rand, ps []pt) *treeInst { return wrap3(hand3(rng, ps)) }}
+var tree2API = treeAPI{"model2d", 2, build2, func(rng *rand.Rand, ps []pt) *treeInst { return wrap2(hand2(rng, ps)) }}
 
 // genPoints draws a point cloud; exact clouds are on a small integer grid
 // (squared distances are then exact integers).
@@ -244,6 +318,29 @@ func treeCase(c *vlib.Case, api treeAPI, n, queries int) {
 	rng := c.Rng
 	ps, kind, exact, g := genPoints(rng, api.dim, n)
 	t := api.build(ps)
+	treeCheck(c, api, t, ps, kind, exact, g, queries)
+	// sub-trees reached through the exported fields answer for exactly their own points
+	if len(ps) <= 3000 {
+		cur := t
+		for depth := 0; depth < 4; depth++ {
+			ch := cur.children()
+			if len(ch) == 0 {
+				break
+			}
+			cur = ch[rng.Intn(len(ch))]
+			c.Count(fmt.Sprintf("tree%dd.subtrees_checked", api.dim), 1)
+			treeCheck(c, api, cur, cur.slice(), kind+"/subtree", exact, g, 2)
+		}
+		// and so does a tree assembled by hand through those fields
+		if len(ps) <= 400 && rng.Intn(3) == 0 {
+			c.Count(fmt.Sprintf("tree%dd.hand_built_trees", api.dim), 1)
+			treeCheck(c, api, api.hand(rng, ps), ps, kind+"/hand-built", exact, g, 3)
+		}
+	}
+}
+
+func treeCheck(c *vlib.Case, api treeAPI, t *treeInst, ps []pt, kind string, exact bool, g int, queries int) {
+	rng := c.Rng
 	pre := fmt.Sprintf("tree%dd", api.dim)
 	c.Count(pre+".clouds", 1)
 	c.Count(pre+".cloud."+kind, 1)
